@@ -289,6 +289,11 @@ func c04WeightedChoose(c *core.Ctx, info *c04Info, im *c04Impl, total, weight *t
 		}
 	}
 
+	// ---- the walk may be written with a callback iterator: eachServer(lb.Servers, func(s *Server) bool {…})
+	if helperCall == nil && c04WeightedVisitor(c, im, f, q, r, rid, defStmt, total, weight, totalK, consC) {
+		return
+	}
+
 	// ---- (c) subtractions
 	isR := func(e ast.Expr) bool {
 		id, ok := ast.Unparen(e).(*ast.Ident)
@@ -353,6 +358,17 @@ func c04WeightedChoose(c *core.Ctx, info *c04Info, im *c04Impl, total, weight *t
 		return true
 	})
 	if badMod != nil {
+		// the modification sits in a function literal handed to some call (a callback iterator the
+		// rule does not recognise as a plain one): a form it cannot follow, not a violation
+		for p := pm[badMod]; p != nil; p = pm[p] {
+			if fl, ok := p.(*ast.FuncLit); ok {
+				if _, isArg := pm[fl].(*ast.CallExpr); isArg {
+					c.Undecide("R-C04-8", consC, pos(c, badMod), "the draw is modified inside a function literal handed to a helper that is not a plain iterator over the receiver's list; the rule cannot follow this form")
+					return
+				}
+				break
+			}
+		}
 		c.Violate("R-C04-8", consC, pos(c, badMod), "the draw is modified by something other than `draw -= <current server>.Weight` inside the loop over the receiver's list: the intervals the draw is compared with are no longer the servers' weights")
 		return
 	}
@@ -928,4 +944,280 @@ func c04WeightedSum(c *core.Ctx, info *c04Info, im *c04Impl, total, weight *type
 	default:
 		c.Discharge("R-C04-8", cons, pos(c, as), sprintf("%s: total = sum of <elem>.Weight, unconditional, in a loop over the slice installed as the list", declName(s.pkg, s.fd)))
 	}
+}
+
+// c04PlainIterator: hd is `func h(list []T, visit func(T) bool)` (any parameter order) whose body is
+// exactly one loop over all elements of list that calls visit(<current element>) once per
+// iteration and stops when it returns false. Returns the positions of list and visit.
+func c04PlainIterator(g *flow.Func, hd *ast.FuncDecl) (listIdx, visitIdx int, ok bool) {
+	listIdx, visitIdx = -1, -1
+	var params []*ast.Ident
+	for _, fld := range hd.Type.Params.List {
+		params = append(params, fld.Names...)
+	}
+	if len(hd.Body.List) != 1 {
+		return -1, -1, false
+	}
+	st, isStmt := hd.Body.List[0].(ast.Stmt)
+	if !isStmt {
+		return -1, -1, false
+	}
+	loop := c04LoopOf(g, st)
+	if loop == nil || len(loop.body.List) != 1 {
+		return -1, -1, false
+	}
+	ifs, isIf := loop.body.List[0].(*ast.IfStmt)
+	if !isIf || ifs.Init != nil || ifs.Else != nil || len(ifs.Body.List) != 1 {
+		return -1, -1, false
+	}
+	switch x := ifs.Body.List[0].(type) {
+	case *ast.ReturnStmt:
+		if len(x.Results) != 0 {
+			return -1, -1, false
+		}
+	case *ast.BranchStmt:
+		if x.Tok != token.BREAK || x.Label != nil {
+			return -1, -1, false
+		}
+	default:
+		return -1, -1, false
+	}
+	not, isNot := ast.Unparen(ifs.Cond).(*ast.UnaryExpr)
+	if !isNot || not.Op != token.NOT {
+		return -1, -1, false
+	}
+	call, isCall := ast.Unparen(not.X).(*ast.CallExpr)
+	if !isCall || len(call.Args) != 1 {
+		return -1, -1, false
+	}
+	q := c04NewFacts(g, nil)
+	if !c04IsElem(g, q, call.Args[0], loop) {
+		return -1, -1, false
+	}
+	for i, p := range params {
+		o := g.Info.Defs[p]
+		if id, isID := ast.Unparen(call.Fun).(*ast.Ident); isID && c04ObjOf(g.Info, id) == o {
+			visitIdx = i
+		}
+		if id, isID := ast.Unparen(loop.x).(*ast.Ident); isID && c04ObjOf(g.Info, id) == o && !q.unsafe[o] && q.defs[o] == nil {
+			listIdx = i
+		}
+	}
+	return listIdx, visitIdx, listIdx >= 0 && visitIdx >= 0
+}
+
+// c04WeightedVisitor judges obligations (c) and (d) when the selection loop is a function literal
+// handed, with the receiver's list, to a plain iterator. The literal is the loop body: its
+// parameter is the current element, `return true` moves on, `return false` stops the walk; the
+// chosen server is recorded in a captured variable. Returns false if this is not that form.
+func c04WeightedVisitor(c *core.Ctx, im *c04Impl, f *flow.Func, q *c04Facts, r types.Object, rid *ast.Ident, defStmt ast.Node, total, weight *types.Var, totalK, consC string) bool {
+	pm := parentMap(f.Body)
+	isR := func(e ast.Expr) bool {
+		id, ok := ast.Unparen(e).(*ast.Ident)
+		return ok && c04ObjOf(f.Info, id) == r
+	}
+	// the literal that modifies the draw
+	var lit *ast.FuncLit
+	ast.Inspect(f.Body, func(n ast.Node) bool {
+		as, ok := n.(*ast.AssignStmt)
+		if !ok || ast.Node(as) == defStmt {
+			return true
+		}
+		for _, l := range as.Lhs {
+			if isR(l) {
+				for p := pm[as]; p != nil; p = pm[p] {
+					if fl, ok := p.(*ast.FuncLit); ok {
+						if lit == nil {
+							lit = fl
+						}
+						break
+					}
+				}
+			}
+		}
+		return true
+	})
+	if lit == nil {
+		return false
+	}
+	call, ok := pm[lit].(*ast.CallExpr)
+	if !ok {
+		return false
+	}
+	fo, _ := f.Callee(call).(*types.Func)
+	if fo == nil || fo.Pkg() != f.Pkg.Types {
+		return false
+	}
+	hd := declOf(f.Pkg, fo)
+	if hd == nil {
+		return false
+	}
+	li, vi, ok := c04PlainIterator(funcOf(f.Pkg, hd), hd)
+	if !ok || li >= len(call.Args) || vi >= len(call.Args) || ast.Unparen(call.Args[vi]) != ast.Expr(lit) || !q.isList(call.Args[li]) {
+		return false
+	}
+	if lit.Type.Params == nil || len(lit.Type.Params.List) != 1 || len(lit.Type.Params.List[0].Names) != 1 {
+		return false
+	}
+	elem := f.Info.Defs[lit.Type.Params.List[0].Names[0]]
+	isElem := func(e ast.Expr) bool {
+		id, ok := ast.Unparen(e).(*ast.Ident)
+		return ok && c04ObjOf(f.Info, id) == elem
+	}
+	elemWeight := func(e ast.Expr) bool {
+		sel, ok := ast.Unparen(e).(*ast.SelectorExpr)
+		return ok && c04SelObj(f.Info, sel) == types.Object(weight) && isElem(sel.X)
+	}
+	// statements of the literal: subtractions of the draw, recordings of the chosen server
+	isSub := map[ast.Node]bool{}
+	isPick := map[ast.Node]bool{}
+	picked := map[types.Object]bool{}
+	var badMod ast.Node
+	serverPtr := types.NewPointer(im.list.Type().(*types.Slice).Elem().(*types.Pointer).Elem())
+	ast.Inspect(f.Body, func(n ast.Node) bool {
+		as, ok := n.(*ast.AssignStmt)
+		if !ok || ast.Node(as) == defStmt {
+			return true
+		}
+		for i, l := range as.Lhs {
+			switch {
+			case isR(l):
+				okForm := false
+				if contains(lit.Body, as) && len(as.Lhs) == 1 && len(as.Rhs) == 1 {
+					switch as.Tok {
+					case token.SUB_ASSIGN:
+						okForm = elemWeight(as.Rhs[0])
+					case token.ASSIGN:
+						if b, isB := ast.Unparen(as.Rhs[0]).(*ast.BinaryExpr); isB && b.Op == token.SUB && isR(b.X) {
+							okForm = elemWeight(b.Y)
+						}
+					}
+				}
+				if okForm {
+					isSub[as] = true
+				} else if badMod == nil {
+					badMod = as
+				}
+			case contains(lit.Body, as):
+				id, isID := ast.Unparen(l).(*ast.Ident)
+				if !isID {
+					continue
+				}
+				o := c04ObjOf(f.Info, id)
+				if v, isVar := o.(*types.Var); isVar && types.Identical(v.Type(), serverPtr) && !contains(lit, astNodeOf(f, v)) {
+					// an outer *Server variable written by the visitor
+					if len(as.Lhs) == len(as.Rhs) && isElem(as.Rhs[i]) {
+						isPick[as] = true
+						picked[o] = true
+					} else if badMod == nil {
+						badMod = as
+					}
+				}
+			}
+		}
+		return true
+	})
+	if badMod != nil {
+		c.Violate("R-C04-8", consC, pos(c, badMod), "inside the visitor of the server walk the draw is modified by something other than `draw -= <current server>.Weight`, or a server other than the current one is recorded as chosen: the intervals the draw is compared with are no longer the servers' weights")
+		return true
+	}
+	if len(isSub) == 0 || len(picked) == 0 {
+		return false
+	}
+	lf := f.Lit(lit)
+	c.Count("functions_analysed", 1)
+	rR := f.Render(rid)
+	type finding struct {
+		at  ast.Node
+		st  *flow.State
+		why string
+	}
+	var bad *finding
+	res := analyze(c, lf, flow.Config{
+		NoHavoc: true,
+		OnNode: func(st *flow.State, n ast.Node) {
+			if isSub[n] {
+				if st.Is("ev:sub", flow.True) && bad == nil {
+					bad = &finding{n, st, "the current server's weight is subtracted from the draw twice in one visit"}
+				}
+				st.Set("ev:sub", flow.True)
+			}
+			if isPick[n] {
+				st.Set("ev:picked", flow.True)
+			}
+		},
+	})
+	if res == nil {
+		return true
+	}
+	stops, goes := 0, 0
+	for _, ex := range res.Exits {
+		if ex.Kind != flow.ExitReturn || bad != nil {
+			continue
+		}
+		if ex.Return == nil || len(ex.Return.Results) != 1 || f.Info.Types[ex.Return.Results[0]].Value == nil {
+			c.Undecide("R-C04-8", consC, pos(c, ex.At), "the visitor of the server walk does not return a constant true/false")
+			return true
+		}
+		st := ex.State
+		if constant.BoolVal(f.Info.Types[ex.Return.Results[0]].Value) {
+			goes++
+			switch {
+			case !st.Is("ev:sub", flow.True):
+				bad = &finding{ex.Return, st, "a visit can move on to the next server without subtracting the current server's weight from the draw: the draw is compared with a subset of the summed weights"}
+			case st.Is("ev:picked", flow.True):
+				bad = &finding{ex.Return, st, "a server is recorded as chosen but the walk goes on: a later server overwrites it regardless of the draw"}
+			}
+			continue
+		}
+		stops++
+		switch {
+		case !st.Is("ev:picked", flow.True):
+			bad = &finding{ex.Return, st, "the walk over the servers is stopped without a server having been chosen"}
+		case !st.Is("ev:sub", flow.True) || !st.Is("lt:"+rR+"<0", flow.True):
+			bad = &finding{ex.Return, st, "the current server is recorded as chosen without the strict test `draw < 0` (after subtracting its weight) having succeeded: with `<=` or no test the draw 0 selects a leading server whose weight is 0 although another server has a positive weight"}
+		}
+	}
+	if bad != nil {
+		c.Violate("R-C04-8", consC, pos(c, bad.at), bad.why, witness(bad.st)...)
+	} else if stops == 0 {
+		c.Violate("R-C04-8", consC, pos(c, lit), "the visitor of the server walk never chooses a server")
+	} else {
+		c.Discharge("R-C04-8", consC, pos(c, lit), sprintf("visitor of %s over the receiver's list: %d continuing exits all after one subtraction, %d stopping exits record the current element under the strict test", fo.Name(), goes, stops))
+	}
+	// (d): the other returns of ChooseServer
+	consD := im.cons + "|weight-blind choice only when no weight is positive"
+	res0 := analyze(c, f, flow.Config{NoHavoc: true})
+	if res0 == nil {
+		return true
+	}
+	uniform := 0
+	var badD *finding
+	for _, ex := range res0.Exits {
+		if ex.Kind != flow.ExitReturn || ex.Return == nil || len(ex.Return.Results) != 1 {
+			continue
+		}
+		ret := ast.Unparen(ex.Return.Results[0])
+		if f.Info.Types[ret].IsNil() {
+			continue
+		}
+		if id, ok := ret.(*ast.Ident); ok && picked[c04ObjOf(f.Info, id)] {
+			continue // the server the visitor chose
+		}
+		uniform++
+		if badD == nil && (totalK == "" || !q.nonposK(ex.State, totalK)) {
+			badD = &finding{ex.Return, ex.State, "a server is returned without consulting its weight in a state where the total weight is not known to be <= 0: when some weight is positive a zero-weight server can be chosen"}
+		}
+	}
+	if badD != nil {
+		c.Violate("R-C04-8", consD, pos(c, badD.at), badD.why, witness(badD.st)...)
+	} else {
+		c.Discharge("R-C04-8", consD, pos(c, im.decl), sprintf("%d weight-blind returns, all with total known <= 0", uniform))
+	}
+	return true
+}
+
+// astNodeOf returns a zero-width node at the declaration of v (for containment tests).
+func astNodeOf(f *flow.Func, v *types.Var) ast.Node {
+	return &ast.Ident{NamePos: v.Pos(), Name: v.Name()}
 }
